@@ -45,9 +45,17 @@ func (self ValueObject) DisplayFlat() (string, *VmInterrupt) {
 func (self ValueObject) IsEqual(other Value) (bool, *VmInterrupt) {
 	otherObj := other.(ValueObject)
 
+	// both objects need to have the same set of keys
+	if len(self.FieldsInternal) != len(otherObj.FieldsInternal) {
+		return false, nil
+	}
+
 	for key, value := range self.FieldsInternal {
 		otherValue, found := otherObj.FieldsInternal[key]
 		if !found {
+			return false, nil
+		}
+		if (*value).Kind() != (*otherValue).Kind() {
 			return false, nil
 		}
 		isEqual, i := (*value).IsEqual(*otherValue)
